@@ -154,6 +154,7 @@ def do_source(rec, hub, U, all_letters, la, regimes, rng, tier):
                 try:
                     if inplace:
                         x.cumsum(dim_letter=l, inplace=True)
+                        x.cumsum(l, True)  # the switch by position
                     else:
                         x.cumsum(l if rng.random() < 0.7 else np.str_(l))
                 except Exception:
